@@ -122,7 +122,13 @@ class Ctx:
             self.classes[cls] = self.classes.get(cls, 0) + 1
         if nontrivial and key is not None:
             if len(self.distinct) < DISTINCT_CAP:
-                self.distinct.add(hash(key))
+                if self.nshards > 1:
+                    # shards run under different string-hash seeds: use a digest that does not depend on it,
+                    # so that the union over shards counts a key once
+                    self.distinct.add(int.from_bytes(hashlib.blake2b(repr(key).encode("utf-8", "replace"),
+                                                                     digest_size=7).digest(), "big"))
+                else:
+                    self.distinct.add(hash(key))
             else:
                 self.distinct_capped = True
 
